@@ -11,12 +11,23 @@
      between the two runs' states (line number, pending string start and pending f-string text start shifted,
      everything else equal).
 
-   What is NOT proved: that DiffParser picks copy boundaries at which the tokenizer / engine state is the
-   fresh one (tok_resume / statement locality) and the difflib + _NodesTree bookkeeping; those are decided by
-   validation of edit histories against the pipeline model (harness/props/C04.py). *)
+   DiffParser also re-tokenizes only the lines from `parsed_until_line` on, with the indentation stack of the nodes
+   it kept and is_first_token=False.  That is right only if the tokenizer can be restarted at a line boundary:
+
+     C04_tok_resume: Model.run_resume_points lists, for every line i of the input, whether the tokenizer state after
+     line i is clean (no open bracket, no string or f-string continued, at the start of a logical line, no pending
+     backslash/comment prefix) and, if so, the indentation stack there.  For every such i the tokens of the whole
+     input are t1 ++ rest, where the tokens of the first i+1 lines alone are t1 ++ DEDENTs ++ [ENDMARKER] (one
+     DEDENT per open indentation) and rest are the tokens of the remaining lines tokenized on their own from line
+     sl + i + 1 with that indentation stack and is_first_token=False; errors of the rest are the errors of the whole.
+     Proved for ANY collection and oracles (TokResume.tok_resume_points) from the same simulation with k = 0.
+
+   What is NOT proved: that DiffParser picks copy boundaries that are clean in this sense and at which the engine is
+   at a statement boundary, and the difflib + _NodesTree bookkeeping; those are decided by validation of edit
+   histories against the pipeline model (harness/props/C04.py). *)
 From Coq Require Import List NArith Bool.
 Import ListNotations.
-Require Import Regex Tok TokShift Tables Model.
+Require Import Regex Tok TokShift TokResume Tables Model.
 Open Scope N_scope.
 
 Theorem C04_tok_shift : forall v k lines inds sl sc first,
@@ -37,3 +48,26 @@ Example C04_shift_example :
   | Tok.Ok a, Tok.Ok b => (10 <=? N.of_nat (length a)) = true /\ b = map (shT 40) a /\ a <> b
   | _, _ => False end.
 Proof. vm_compute. split; [reflexivity|split; [reflexivity|discriminate]]. Qed.
+
+Theorem C04_tok_resume : forall v lines inds sl sc first i inds1,
+  1 <= sl ->
+  nth_error (run_resume_points v lines inds sl sc first) i = Some (Some inds1) ->
+  exists t1 d e,
+    run_tok v (firstn (S i) lines) inds sl sc first = Tok.Ok (t1 ++ d ++ [e]) /\
+    Forall (fun t => ty t = DEDENT) d /\ length d = length (tl inds1) /\ ty e = ENDMARKER /\
+    (skipn (S i) lines <> [] ->
+     run_tok v lines inds sl sc first =
+     match run_tok v (skipn (S i) lines) inds1 (sl + N.of_nat (S i)) sc false with
+     | Tok.Ok rest => Tok.Ok (t1 ++ rest) | Tok.Err x => Tok.Err x end).
+Proof.
+  intros v lines inds sl sc first i inds1 SL H. unfold run_resume_points in H. unfold run_tok.
+  destruct (coll_of v) as [c|]; [|destruct i; discriminate].
+  apply tok_resume_points; assumption.
+Qed.
+Print Assumptions C04_tok_resume.
+
+(* non-vacuity: the region above has clean boundaries after its first, third and fourth line, with the stacks [0], [0;2], [0;2] *)
+Example C04_resume_example :
+  let lines := [[105;102;32;97;58;10]; [32;32;120;32;61;32;39;39;39;97;10]; [98;39;39;39;10]; [32;32;121;32;61;32;102;34;123;120;125;34;10]] in
+  run_resume_points 312 lines [0] 1 0 true = [Some [0]; None; Some [0; 2]; Some [0; 2]].
+Proof. vm_compute. reflexivity. Qed.
